@@ -25,9 +25,18 @@ _CN = re.compile(r"[cC]([1-9][0-9]*)\Z")
 
 
 def parse_symmetry(sym):
-    """-> (n, spelling) for the four spellings inside the property, else (None, reason)."""
-    if isinstance(sym, bool):
+    """-> (n, spelling) for the spellings inside the property ('Cn', 'cn', Python or numpy integer, integral Python or
+    numpy float), else (None, reason)."""
+    if isinstance(sym, (bool, np.bool_)):
         return None, "bool"
+    if isinstance(sym, np.integer):
+        n, sp = int(sym), ("np.int64" if isinstance(sym, np.int64) else "np.integer")
+        return (n, sp) if 1 <= n <= N_MAX else (None, "n outside 1..%d" % N_MAX)
+    if isinstance(sym, np.floating):
+        if not np.isfinite(sym) or float(sym) != int(sym):
+            return None, "non-integral float"
+        n, sp = int(sym), ("np.float64" if isinstance(sym, np.float64) else "np.floating")
+        return (n, sp) if 1 <= n <= N_MAX else (None, "n outside 1..%d" % N_MAX)
     if isinstance(sym, str):
         m = _CN.match(sym)
         if not m:
